@@ -30,6 +30,28 @@ CHECKS = {
    text="Futures handles: model comparison of sequential Sink/Stream histories with a per-call step bound (no waiting inside poll/start_send), and concurrent traffic through tasks on a deterministic executor."),
 }
 
+CHECKS.update({
+ "C04": dict(engine="E1 detsched", technique=SCHED + "; self-checking payload as oracle", design="§4 C04",
+   text="The payload's Clone and every view closure contain a scheduling point, so a clone/view can be suspended for arbitrarily long while producers wrap the ring; the payload checks itself (well-formed, live, unchanged) at both ends of every observation."),
+ "C06": dict(engine="E1 detsched", technique=SCHED + "; quiescent probes compared with the reference model", design="§4 C06",
+   text="Concurrent phases that stop without draining, followed by single-threaded fill/drain/refill/drain probes compared with the model computed from the recorded history."),
+ "C10": dict(engine="E1 detsched", technique=SCHED, design="§4 C10",
+   text="add_stream raced with producers and sibling consumers; the new stream's drained sequence must be a contiguous suffix of a witness stream's order starting within the parent's position range during the call; delivery/order/capacity oracles on all streams. Known finding D8 (multi-handle parent raced by a sibling) is matched structurally."),
+ "C11": dict(engine="E1 detsched", technique=SCHED + "; liveness decided as a scheduler stuck-state", design="§4 C11",
+   text="Handles of a slow stream dropped/unsubscribed while producers retry on a full queue; stuck producers, unsubscribe return values and collateral damage on remaining streams are checked."),
+ "C14": dict(engine="E1 detsched + E2 seqmodel", technique=SCHED + "; deterministic futures executor; sequential notify oracle", design="§4 C14",
+   text="Sink/Stream tasks on a deterministic executor where NotReady blocks the thread until Notify::notify; a missed notification is a scheduler deadlock with a parked task that could progress. Sequential part: every call that makes progress possible for a parked task must have notified it."),
+ "C16": dict(engine="E1 detsched + quarantine", technique=SCHED + "; freed blocks are quarantined and every instrumented access is checked against them", design="§4 C16",
+   text="Stream/handle churn racing with writers scanning the stream list; any atomic access or dereference of bookkeeping memory that was already freed, any double or invalid free is reported."),
+ "C17": dict(engine="E3 memacct", technique="property-based testing with a counting global allocator as oracle (generated teardown histories and churn loops)", design="§4 C17",
+   text="Bytes attributed to the queue must return to the baseline after every generated teardown, and must plateau across 2c..4c generated churn cycles."),
+ "C18": dict(engine="E1 detsched", technique=SCHED + "; solo-run step bound", design="§4 C18",
+   text="At generated points all other threads are frozen wherever they are and one try operation runs alone; it must return within a fixed number of its own steps and never block."),
+ "C19": dict(engine="E5 typeprobe", technique="generated compile probes: one rustc program per (handle type x payload class x closure class x trait), exhaustive over the finite table", design="§4 C19",
+   text="The compiler decides each cell of the Send/Sync table; the expected table is derived from the statement only.",
+   note="trusted base: rustc's auto-trait checking; one representative type per payload/closure class"),
+})
+
 def main():
     hooks_commits = subprocess.check_output(
         ["git", "-C", "/repo", "log", "--format=%h", "--grep", "^verif hooks"]).decode().split()
@@ -65,6 +87,10 @@ def main():
              "kind_free_text": "serialising scheduler over the instrumented crate; the schedule is a generated, shrinkable, replayable input"},
             {"name": "E2 seqmodel", "path": "harness/src/model.rs", "serves_properties": ["C05","C09","C13","C14","C15"],
              "kind_free_text": "single managed thread executing API histories against the reference model, with per-call step bounds"},
+            {"name": "E3 memacct", "path": "harness/src/mem.rs", "serves_properties": ["C17"],
+             "kind_free_text": "counting global allocator that attributes allocations made inside calls into the crate"},
+            {"name": "E5 typeprobe", "path": "check", "serves_properties": ["C19"],
+             "kind_free_text": "generated rustc probe programs for the Send/Sync table"},
         ],
         "checks": checks,
         "notes": "All checks are driven by ./check (python3, no third-party modules), which rebuilds harness/ against /repo's working tree, runs 16 worker processes and merges their reports into evidence/<id>.json. known_findings.json lists repaired and recorded defects.",
